@@ -1,7 +1,7 @@
 //! C02 — document state equals the op-based CRDT interpretation of its history.
 use amv::fw::*;
 use amv::gen::{Profile, World};
-use amv::obs::{enc_name, first_diff, fingerprint, observe};
+use amv::obs::{enc_name, first_diff, fingerprint, observe, strip_marks};
 use amv::refint::ref_snapshot;
 use amv::util::*;
 use serde_json::json;
@@ -68,15 +68,18 @@ impl Check for C02 {
                     cx.violation("ref-cannot-interpret", format!("the reference interpreter cannot read the history: {}", rerrs[0]), json!({"errors": rerrs, "log": tail(&w.log, 30)}));
                     return;
                 }
-                if !obs.errors.is_empty() {
+                let core = obs.core_errors();
+                cx.add("mark_read_disagreements_left_to_C25", obs.mark_errors().len() as u64);
+                if !core.is_empty() {
                     if cx.verbose {
                         let _ = std::fs::create_dir_all("/verif/out/dump");
                         let _ = std::fs::write("/verif/out/dump/viol.bin", w.docs[r].save());
                     }
-                    cx.violation("read-inconsistency", format!("reads of one document disagree: {}", obs.errors[0]), json!({"errors": obs.errors, "encoding": enc_name(enc), "replica": r, "segment": seg, "log": tail(&w.log, 40)}));
+                    cx.violation("read-inconsistency", format!("reads of one document disagree: {}", core[0]), json!({"errors": core, "encoding": enc_name(enc), "replica": r, "segment": seg, "log": tail(&w.log, 40)}));
                     return;
                 }
-                if let Some(d) = first_diff(&obs.snap, &rs) {
+                // marks are C25's subject: compared there, not here
+                if let Some(d) = first_diff(&strip_marks(&obs.snap), &strip_marks(&rs)) {
                     cx.violation("state-differs-from-ref", format!("document (left) differs from the op-based interpretation (right) {d}"), json!({"diff": d, "encoding": enc_name(enc), "replica": r, "segment": seg, "changes": changes.len(), "log": tail(&w.log, 60)}));
                     return;
                 }
